@@ -42,18 +42,16 @@ def location_record(lat, lon, alt, ell=(0, 0, 0), radius=0, rel_dist=1, rel_dir=
 # C12: the store
 # ----------------------------------------------------------------------------------------------------------------
 class Rec:
-    __slots__ = ("oid", "app", "ts", "loc", "locname", "content", "validity", "added", "inside", "deleted", "swept", "cache")
+    __slots__ = ("oid", "app", "ts", "loc", "locname", "content", "validity", "added", "inside", "deleted", "swept")
 
     def __init__(self, oid, app, ts, loc, locname, content, validity, added, inside):
         self.oid, self.app, self.ts, self.loc, self.locname = oid, app, ts, loc, locname
         self.content, self.validity, self.added, self.inside = content, validity, added, inside
-        self.cache = {}          # derived keys of the current content (cleared by set_content)
         self.deleted = False     # a delete of this id was acknowledged
         self.swept = False       # an explicit maintenance ran strictly past the expiry (at clock resolution)
 
     def set_content(self, content):
         self.content = content
-        self.cache = {}
 
     @property
     def expiry(self):            # validity lapses at added + validity (whole seconds, both)
@@ -118,16 +116,15 @@ class RefStore:
             return "gone"
         return "must" if r.must_present(now) else "may"
 
-    def canon(self, now):
+    def canon(self, now, digest=None):
+        digest = digest or _digest
         out = []
         for oid in sorted(self.recs):
             r = self.recs[oid]
             if r.must_absent():
                 out.append((oid, "gone"))
             else:
-                if "digest" not in r.cache:
-                    r.cache["digest"] = _digest(r.content)
-                out.append((oid, r.app, r.locname, r.validity, r.expiry - clock(now), r.ts - r.added * 1000, r.cache["digest"]))
+                out.append((oid, r.app, r.locname, r.validity, r.expiry - clock(now), r.ts - r.added * 1000, digest(r.content)))
         return (tuple(sorted(self.providers)), tuple(sorted(self.consumers)), tuple(out))
 
 
